@@ -40,10 +40,10 @@ P['C02']={
   H+"encodeTokensToHeaders":[], A+"encodeHeaderValue":[],
   "oidc.ParseToken":[], "oidc.TokenResponse.ParseIDToken":[],
   A+"performIDPRequest":["decoded","sent","count"],
-  "oidc.DefaultJWKSProvider.fetchStatic":[],
+  "oidc.DefaultJWKSProvider.fetchStatic":[], "oidc.DefaultJWKSProvider.fetchDynamic":[],
  },
  "refines":["oidc.DefaultJWKSProvider.Get"],
- "required":["oidc.DefaultJWKSProvider.Get:refine:JWKSProvider.Get.keys", H+"isValidIDToken:post:valid", H+"retrieveTokens:post:bind", H+"Process:post:ok_forwards", H+"allowResponse:post:only_tokens", "oidc.ParseToken:pre@call:jwt.Parse.opts"],
+ "required":["oidc.DefaultJWKSProvider.Get:refine:JWKSProvider.Get.keys", "oidc.DefaultJWKSProvider.fetchDynamic:post:fetched", H+"isValidIDToken:post:valid", H+"retrieveTokens:post:bind", H+"Process:post:ok_forwards", H+"allowResponse:post:only_tokens", "oidc.ParseToken:pre@call:jwt.Parse.opts"],
  "note":"that jws.Verify / jwt.Parse reject forged tokens is a trusted contract (T-jws-Verify, T-jwt-Parse); decided: every bind is dominated by a successful verification of exactly the stored string under a key set of the configured provider, audience and nonce checks on claims of the same string; options of jwt.Parse / jws.Verify are pinned by preconditions"}
 P['C04']={
  "posts":{
